@@ -18,7 +18,8 @@ RULE = ("X25519: full cross product of a scalar alphabet (0,1,2,7,8,2^254,2^254+
         "low-order peer keys refused; ~120 (scalar, point) pairs constructed backwards so that the SHARED SECRET has exactly one non-zero byte at each "
         "byte position / one non-zero word / is 1..4 or p-1..p-3 (must be returned, and accepted by box_beforenm); box/kx seed_keypair = documented hash of the seed for 6 seed patterns x lengths. Every "
         "(scalar, point, backend) is one distinct case compared with the reference. Call forms with the result written over the point / the "
-        "scalar. Dense differential family: 2^21 (thorough 2^24) declared counter-generated (scalar, point) pairs through the sandy2x, fe51 and "
+        "scalar. Field seam (harness/c05_fe.c): the tree's fe25519 code in both radices on (element, element, op) for ~100^2 (thorough 130^2) structured "
+        "elements x 20 operation shapes (decode, one lazy add/sub, mul/sq/sq2/mul32/neg/invert/cmov/cswap, full reduction) vs Python integers. Dense differential family: 2^21 (thorough 2^24) declared counter-generated (scalar, point) pairs through the sandy2x, fe51 and "
         "fe25.5 ladders, per-block digests compared, differing cases judged by the reference (a bounded deterministic family, not a class "
         "argument: it reaches limb-carry coincidences of probability down to about 2^-19 per call).")
 
@@ -232,6 +233,63 @@ def _backend_worker(args):
     return tag, feats, n, fails[:20]
 
 
+FE_OPS = "MmSsqDd34nNxyabijcwz"
+def _fe_expect(op, a, b):
+    a &= (1 << 255) - 1; b &= (1 << 255) - 1
+    A, B, X, Y = a % P, b % P, (a + b) % P, (a - b) % P
+    if op == "M": return A * B % P
+    if op == "m": return X * Y % P
+    if op == "S": return A * A % P
+    if op == "s": return X * X % P
+    if op == "q": return Y * Y % P
+    if op == "D": return 2 * A * A % P
+    if op == "d": return 2 * Y * Y % P
+    if op == "3": return 121666 * Y % P
+    if op == "4": return 121666 * X % P
+    if op == "n": return (-Y) % P
+    if op == "N": return (-A) % P
+    if op == "x": return X
+    if op == "y": return Y
+    if op == "a": return (A * B + A) % P
+    if op == "b": return (A * B - B) % P
+    if op == "i": return pow(A, P - 2, P)
+    if op == "j": return pow(Y, P - 2, P)
+    if op == "c": return B if (a & 1) else A
+    if op == "w": return B if (b & 1) else A
+    if op == "z": return (1 if Y == 0 else 0) | (Y & 1) << 8 | (1 if A == 0 else 0) << 16 | (X & 1) << 24
+    raise ValueError(op)
+
+def _fe_worker(args):
+    variant, elems = args
+    import subprocess
+    from vf import build
+    d = build.build(variant); exe = os.path.join(d, "h_c05fe")
+    cc, flags = build.variant_flags(variant)
+    build.link_harness(variant, exe, [os.path.join(common.VERIF, "harness", "c05_fe.c")], extra_flags=[f for f in flags if f.startswith("-D")])
+    recs = [(op, a, b) for op in FE_OPS for a in elems for b in elems]
+    inp = b"".join(op.encode() + a + b for op, a, b in recs)
+    o = subprocess.run([exe], input=inp, capture_output=True, timeout=900)
+    if o.returncode != 0 or len(o.stdout) != 32 * len(recs):
+        return variant, 0, [("field-seam/%s/driver" % variant, "driver exited %d with %d output bytes" % (o.returncode, len(o.stdout)))]
+    fails = []
+    for i, (op, a, b) in enumerate(recs):
+        got = int.from_bytes(o.stdout[32 * i:32 * i + 32], "little"); want = _fe_expect(op, int.from_bytes(a, "little"), int.from_bytes(b, "little"))
+        if got != want and len(fails) < 20:
+            fails.append(("field-seam/%s/op=%s/a=%s/b=%s" % (variant, op, a.hex(), b.hex()), "got %064x want %064x (op codes: see harness/c05_fe.c)" % (got, want)))
+    return variant, len(recs), fails
+
+def field_seam(tier, Pts, res):
+    """field arithmetic as the ladders use it (decode, <= 1 lazy add/sub, multiply-class op, full reduction) on the whole point alphabet squared,
+    both limb radices"""
+    elems = Pts if tier == "thorough" else Pts[:96] + Pts[-8:]
+    n = 0
+    for variant, cnt, fails in pylib.pool_map(_fe_worker, [("native", elems), ("noti", elems)], 2):
+        n += cnt
+        for k, d in fails:
+            res.fails.append((k, d, {"cmd": ["python3", "vf/check.py", "C05"], "env": {}}))
+    return n
+
+
 DENSE = [("native", ""), ("native", configs.CHAIN[3]), ("noti", "")]       # sandy2x AVX assembly, ref10 on 51-bit limbs, ref10 on 25.5-bit limbs
 
 def dense_family(tier, res):
@@ -310,11 +368,12 @@ def main(tier):
         for k, d in fails:
             res.fails.append((k, d, {"cmd": ["python3", "vf/check.py", "C05"], "env": {}}))
     dense_n = dense_family(tier, res); total += dense_n
+    fe_n = field_seam(tier, Pts, res); total += fe_n
     zero = sum(1 for row in ref for x in row if x == bytes(32))
     res.samples = ["crypto_scalarmult n=%s p=%s -> %s" % (S[5].hex(), Pts[9].hex(), ref[5][9].hex()),
                    "crypto_scalarmult n=%s p=%s (low order) -> must return -1" % (S[3].hex(), Pts[0].hex()),
                    "crypto_scalarmult n=%s p=%s (p+2 with bit 255 set: reduced to 2, top bit ignored) -> %s" % (S[20].hex(), le((P + 2) | 1 << 255).hex(), ec.x25519(S[20], le((P + 2) | 1 << 255)).hex())]
     cov = {"evaluations": total, "distinct_nontrivial": total, "rule": RULE, "exhaustive": True, "scalars": len(S), "points": len(Pts),
-           "reference_zero_results": zero, "key_pairs": nk, "structured_output_cases": len(struct), "dense_differential_cases": dense_n, "backends": tags}
+           "reference_zero_results": zero, "key_pairs": nk, "structured_output_cases": len(struct), "dense_differential_cases": dense_n, "field_seam_cases": fe_n, "backends": tags}
     common.finish("C05", tier, "exploration", res, cov,
                   ["values outside the structured alphabets are not covered", "reference: ref/ec25519.py RFC 7748 ladder"], t0)
